@@ -67,39 +67,34 @@ def tf_shift_lines(root):
                     fh.write('\n'.join(out))
 
 
-class _RenameLocals(ast.NodeTransformer):
-    """Rename loop variables `chunk`/`component` -> `<name>_x` inside functions of the decoder modules."""
-
-    MAP = {'chunk': 'piece', 'component': 'member', 'received': 'got', 'trailingBits': 'padBits'}
-
-    def visit_FunctionDef(self, node):
-        args = set(a.arg for a in node.args.args + node.args.kwonlyargs)
-        local = dict((k, v) for k, v in self.MAP.items() if k not in args)
-
-        class R(ast.NodeTransformer):
-            def visit_Name(self, n):
-                if n.id in local:
-                    return ast.copy_location(ast.Name(id=local[n.id], ctx=n.ctx), n)
-                return n
-
-            def visit_FunctionDef(self, n):
-                return n
-
-            def visit_Lambda(self, n):
-                return n
-        node.body = [R().visit(s) for s in node.body]
-        return node
+def _rename_all_locals(root, pick):
+    """Rename the locals of every function of every module (`pick(name)` decides which): name -> name + 'Rn'."""
+    from sa import alpha
+    for d, ds, fs in os.walk(root):
+        for f in fs:
+            if not f.endswith('.py'):
+                continue
+            p = os.path.join(d, f)
+            with open(p) as fh:
+                tree = ast.parse(fh.read())
+            for key, fn in alpha.functions(tree):
+                loc, nodes = alpha._locals(fn)
+                ren = set(x for x in loc if pick(x))
+                for n in nodes:
+                    if isinstance(n, ast.Name) and n.id in ren:
+                        n.id = n.id + 'Rn'
+            with open(p, 'w') as fh:
+                fh.write(ast.unparse(tree) + '\n')
 
 
 def tf_rename_locals(root):
-    for rel in ('codec/ber/decoder.py', 'codec/streaming.py', 'codec/cer/decoder.py'):
-        p = os.path.join(root, rel)
-        with open(p) as fh:
-            tree = ast.parse(fh.read())
-        tree = _RenameLocals().visit(tree)
-        ast.fix_missing_locations(tree)
-        with open(p, 'w') as fh:
-            fh.write(ast.unparse(tree) + '\n')
+    """Every local of every function renamed (parameters, attributes and globals keep their names)."""
+    _rename_all_locals(root, lambda name: True)
+
+
+def tf_rename_some_locals(root):
+    """About half of the locals renamed: the alignment has to cope with a mixture."""
+    _rename_all_locals(root, lambda name: sum(map(ord, name)) % 2 == 0)
 
 
 class _AddLog(ast.NodeTransformer):
@@ -141,6 +136,7 @@ def tf_respell_literals(root):
 T('S-unparse', tf_unparse_all)
 T('S-shift-lines', tf_shift_lines)
 T('S-rename-locals', tf_rename_locals)
+T('S-rename-some', tf_rename_some_locals)
 T('S-add-log', tf_add_log)
 T('S-respell', tf_respell_literals)
 
